@@ -44,6 +44,11 @@ pub struct Monitors {
     pub updates_model: UpdatesModel,
     pub custom_model: CustomModel,
     pub model_enabled: bool,
+    // C14
+    /// (identity, is-active) of every record while the probe window below was collected
+    pub rr_sig: Vec<(SimId, bool)>,
+    /// targets of the probe rounds since the set of known members last changed
+    pub rr_window: Vec<SimId>,
 }
 
 fn v(out: &mut Vec<Violation>, property: &'static str, tag: &str, at: u64, detail: String) {
@@ -128,6 +133,8 @@ impl Monitors {
             updates_model: UpdatesModel::new(),
             custom_model: CustomModel::new(setup.hcfg),
             model_enabled: true,
+            rr_sig: Vec::new(),
+            rr_window: Vec::new(),
         }
     }
 
@@ -175,6 +182,7 @@ impl Monitors {
         self.check_sends(pre, rec, post, &told, delivered_genuine, at, out, stats);
         self.check_relays(pre, rec, post, &told, at, out, stats);
         self.check_suspicion_timeout(pre, rec, post, at, out, stats);
+        self.check_round_robin(pre, rec, post, at, out, stats);
         self.check_notifications_and_epochs(pre, rec, post, &told, delivered_genuine, at, out, stats);
         self.check_table(pre, rec, post, &told, at, out);
         self.check_incarnation(pre, rec, post, &told, at, out, stats);
@@ -556,6 +564,72 @@ impl Monitors {
         }
         if n_defunct > 0 {
             stats.add("defuncts", n_defunct);
+        }
+    }
+
+    // ---- C14 ---------------------------------------------------------------------------------------------
+    /// Every effective probe round pings exactly one member that is active, never the instance's own
+    /// address; while the set of known members (identities and which of them are active) is unchanged,
+    /// every window of 2n-1 consecutive rounds pings each of the n active members.
+    fn check_round_robin(&mut self, pre: &Obs, rec: &CallRec, post: &Obs, at: u64, out: &mut Vec<Violation>, stats: &mut Stats) {
+        let sig_of = |o: &Obs| -> Vec<(SimId, bool)> { o.state.iter().map(|m| (*m.id(), m.state() != State::Down)).collect() };
+        let pre_sig = sig_of(pre);
+        if pre_sig != self.rr_sig {
+            self.rr_sig = pre_sig;
+            self.rr_window.clear();
+        }
+        if let Input::Timer(Timer::ProbeRandomMember(token)) = &rec.input {
+            let effective = *token == pre.snap.timer_token && pre.connected();
+            let completed = matches!(rec.result, Res::Ok | Res::Err(ErrKind::IncompleteProbeCycle));
+            if effective && completed {
+                stats.inc("c14_rounds_monitored");
+                let codec = self.codec;
+                let pings: Vec<SimId> = rec
+                    .sends()
+                    .filter(|(_, d)| parse_datagram(codec, d).is_ok_and(|p| matches!(p.header.message, Message::Ping(_))))
+                    .map(|(to, _)| *to)
+                    .collect();
+                if pings.len() != 1 {
+                    v(out, "C14", "C14/not-exactly-one-ping", at, format!("a probe round sent {} Ping datagrams ({:?}); active before: {:?}", pings.len(), pings, pre.active.iter().map(|m| *m.id()).collect::<Vec<_>>()));
+                } else {
+                    let t = pings[0];
+                    if t.addr == pre.id.addr {
+                        v(out, "C14", "C14/probe-own-address", at, format!("probe round pinged {t}, the instance is {}", pre.id));
+                    }
+                    // (the round first settles the previous one: a failed probe may rename or re-install its target,
+                    // so "active" is judged on the state the call leaves behind; nothing goes Down in a probe call)
+                    if !post.active.iter().any(|m| *m.id() == t) {
+                        v(out, "C14", "C14/probe-target-not-active", at, format!("probe round pinged {t}; active after the round: {:?}", post.active.iter().map(|m| *m.id()).collect::<Vec<_>>()));
+                    }
+                    let stable = sig_of(post) == self.rr_sig;
+                    if stable {
+                        self.rr_window.push(t);
+                        let n = post.active.len();
+                        let w = (2 * n).saturating_sub(1);
+                        if n >= 1 && self.rr_window.len() >= w {
+                            stats.inc("c14_full_windows_checked");
+                            let tail = &self.rr_window[self.rr_window.len() - w..];
+                            for m in &post.active {
+                                if !tail.contains(m.id()) {
+                                    v(out, "C14", "C14/member-starved", at, format!("{} was not pinged in the last {w} rounds {:?} although the set of known members did not change (n = {n})", m.id(), tail));
+                                    break;
+                                }
+                            }
+                            // keep the window bounded
+                            if self.rr_window.len() > 4 * w + 8 {
+                                let cut = self.rr_window.len() - w;
+                                self.rr_window.drain(..cut);
+                            }
+                        }
+                    }
+                }
+            }
+        }
+        // the call itself may have changed the set (a new member, a Down, a forget)
+        let post_sig = sig_of(post);
+        if post_sig != self.rr_sig {
+            self.rr_sig = post_sig;
+            self.rr_window.clear();
         }
     }
 
